@@ -9,11 +9,19 @@ either chart without hits / without holds / without any note, times from a pool 
 and 1-ulp-apart values, the 'normal' bit (1) next to whistle / finish / clap, sample / addition / custom set numbers on
 notes of either side, the same sample name several times at one time, sample names with non-ASCII letters, blanks,
 ',' ':' '#' ';' and differing only in case, event samples in the source chart, the same chart object as source and
-target, and a second call that uses the first result as its source or as its target (`then`).
+target, a second call that uses the first result as its source or as its target (`then`), a second call on the SAME two
+chart objects after they were changed through public operations (`then.role == "edited"`: hitsound bits / sample names set
+through the list properties, target notes shifted in place, the source shifted through its stack, a note appended to
+either chart as a list or as one item, both charts replaced by their rate(2) / rate(0.5)) - judged against the charts as
+they are then -, and columns up to 17 (the 18-key end of the column range).
 
 Clauses added for them:
   result_shares_no_data_with_inputs       editing the inputs after the call changes the result, or editing the result
                                           changes an input (the inputs are then not really left alone)
+  holds_after_append_of_an_item           any clause failing in a second call after a note was appended to an input as ONE
+                                          item (kept apart: such a list has object-typed columns; the clause is in the detail)
+  holds_after_stack_write_to_source       any clause failing in a second call after the SOURCE went through its stack
+                                          (stack().offset += d, rate()) - kept apart: its integer columns are float64 then
   sample_name_with_semicolon_kept_whole   every per-time clause at a time where a source sample name contains ';'
                                           (kept apart: a name with ';' comes out as several names)
 """
@@ -33,6 +41,7 @@ FILES = ["a.wav", "b.wav", "c.ogg", "d.wav", "e.wav"]
 ODD_FILES = ["\u30c9\u30e9\u30e0\u301c.wav", "snare hit.wav", "A.WAV", "x,y.wav", "c:d.wav", " lead.wav", "tail.wav ", "#1.wav", "\u3000\u00a0.wav", "caf\u00e9//1.ogg", "\"q\".wav"]
 SEMI_FILES = ["kick;01.wav", ";.wav", "a.wav;b.wav"]
 OWN_FILES = ["own1.wav", "own2.wav"]  # names that never occur in a source chart
+EDIT_KINDS = ["src_bits", "src_files", "shift_tgt", "shift_src_stack", "append_src_list", "append_src_item", "append_tgt_item", "append_tgt_list", "rate", "rate_tgt", "shift_tgt_stack"]
 LABEL_SCHEMES = ["default", "default", "default", "reversed", "offset", "gappy", "permuted"]
 
 
@@ -107,6 +116,44 @@ def _edit_in_place(m, k):
             df.loc[:, "volume"] = df["volume"] + k
 
 
+def _edit_inputs(src, tgt, edits):
+    """Legitimate changes of the two chart objects between two calls, through public operations only; -> (src, tgt)."""
+    from reamber.osu import OsuHit
+    from reamber.osu.lists.notes import OsuHitList
+
+    for kind, arg in edits:
+        if kind == "src_bits":          # the documented list property, in place
+            for lst in [x for x in (src.hits, src.holds) if len(x.df)]:      # (assigning [] to a column of an empty list would retype it)
+                lst.hitsound_set = [[0, 2, 4, 6, 8, 10, 12, 14][(i + arg) % 8] for i in range(len(lst.df))]
+        elif kind == "src_files":
+            for lst in [x for x in (src.hits, src.holds) if len(x.df)]:
+                lst.hitsound_file = [FILES[(i + arg) % len(FILES)] if (i + arg) % 2 else "" for i in range(len(lst.df))]
+        elif kind == "shift_tgt":
+            tgt.hits.offset += arg
+            tgt.holds.offset += arg
+        elif kind == "shift_src_stack":
+            st = src.stack()
+            st.offset += arg
+        elif kind == "append_src_list":
+            src.hits = src.hits.append(OsuHitList([OsuHit(offset=arg, column=0, hitsound_set=14, volume=20, hitsound_file="app.wav")]))
+        elif kind == "append_src_item":
+            src.hits = src.hits.append(OsuHit(offset=arg, column=0, hitsound_set=14, volume=20, hitsound_file="app.wav"))
+        elif kind == "append_tgt_item":
+            tgt.hits = tgt.hits.append(OsuHit(offset=arg, column=3))
+        elif kind == "append_tgt_list":
+            tgt.hits = tgt.hits.append(OsuHitList([OsuHit(offset=arg, column=3), OsuHit(offset=arg, column=2)]), sort=True)
+        elif kind == "rate":
+            src, tgt = src.rate(arg), tgt.rate(arg)
+        elif kind == "rate_tgt":
+            tgt = tgt.rate(arg)
+        elif kind == "shift_tgt_stack":
+            st = tgt.stack()
+            st.offset += arg
+        else:
+            raise ValueError(kind)
+    return src, tgt
+
+
 # ---------------------------------------------------------------------------------------------- the clauses
 def _run_case(case):
     src_notes, tgt_notes = case["src"], case["tgt"]
@@ -115,7 +162,20 @@ def _run_case(case):
     tgt = src if case.get("same_object") else _build(tgt_notes, case.get("tgt_events", ()), lab.get("tgt"), ints.get("tgt", False))
     failed, res = _check_call(src, tgt, src_notes, tgt_notes, case.get("src_events", ()), independence=case.get("then") is None)
     then = case.get("then")
-    if then is not None and res is not None and not failed:
+    if then is not None and then["role"] == "edited" and res is not None and not failed:
+        # the SAME two chart objects changed through public operations, then the call again: judged against the charts as they are now
+        try:
+            src, tgt = _edit_inputs(src, tgt, then["edits"])
+        except Exception:  # noqa  (an edit that reamber refuses is not this property's business)
+            src = None
+        if src is not None:
+            ev = [[float(t), f, int(v)] for t, f, v in zip(src.samples.df["offset"].tolist(), src.samples.df["sample_file"].tolist(), src.samples.df["volume"].tolist())]
+            failed2, _ = _check_call(src, tgt, _as_input_notes(src), _as_input_notes(tgt), ev)
+            item = any(k in ("append_src_item", "append_tgt_item") for k, _ in then["edits"])
+            stack = any(k in ("rate", "shift_src_stack") for k, _ in then["edits"])
+            failed += [("holds_after_stack_write_to_source" if stack else "holds_after_append_of_an_item" if item else w,
+                        (f"[{w}] " if stack or item else "") + f"second call on the same chart objects after the edits {then['edits']}: " + d) for w, d in failed2]
+    elif then is not None and res is not None and not failed:
         # a second call that receives what the first one returned (whatever row labels / dtypes that chart has)
         other = _build(then["other"], (), None, False)
         from_res = _as_input_notes(res)
@@ -354,6 +414,23 @@ def _random_case(rng):
                 nf = rng.choice([0, 0, 1, 2])
                 other += _side(rng, [t], max(rng.randrange(1, 4), nf), 0.75, ["n1.wav", "n2.wav", "n3.wav"], 0.3, files_per_time=nf, volumes=volumes)
         case["then"] = dict(role=role, other=other)
+    elif rng.random() < 0.25 and not case.get("same_object"):
+        # the same two chart objects, changed through public operations, then the call again
+        edits = []
+        for kind in rng.sample(EDIT_KINDS, rng.choice([1, 1, 2, 3])):
+            arg = dict(src_bits=rng.randrange(8), src_files=rng.randrange(5), shift_tgt=rng.choice([100.0, -100.0, 150.0, 0.5]), shift_src_stack=rng.choice([100.0, -150.0]),
+                       rate=rng.choice([2.0, 0.5]), rate_tgt=rng.choice([2.0, 0.5]), shift_tgt_stack=rng.choice([100.0, -150.0])).get(kind)
+            if arg is None:
+                arg = rng.choice(pool)      # appended notes sit on a time of the pool
+            edits.append([kind, arg])
+        case["then"] = dict(role="edited", edits=edits)
+    if rng.random() < 0.15:
+        # the upper end of the column range (18 keys): target / source notes in columns up to 17
+        for n in case["src"] + (case["tgt"] if not case.get("same_object") else []):
+            if rng.random() < 0.5:
+                n[1] = rng.choice([4, 9, 16, 17])
+        if case.get("same_object"):
+            case["tgt"] = [list(n) for n in case["src"]]
     return case
 
 
@@ -390,7 +467,12 @@ def _stats(case):
             s.add(side + "_int_typed_offsets")
     for k in ("src_events", "same_object", "then"):
         if case.get(k):
-            s.add(k if k != "then" else "then_first_result_as_" + case["then"]["role"])
+            s.add(k if k != "then" else ("then_first_result_as_" + case["then"]["role"]) if case["then"]["role"] != "edited" else "then_same_objects_after_public_edits")
+    if case.get("then") and case["then"]["role"] == "edited":
+        for k, _ in case["then"]["edits"]:
+            s.add("edit_" + k)
+    if any(n[1] > 3 for n in case["src"] + case["tgt"]):
+        s.add("columns_above_3")
     names = {n[5] for n in case["src"] if n[5]}
     if any(";" in f for f in names):
         s.add("sample_name_with_semicolon")
@@ -420,7 +502,8 @@ def hitsound_copy_vs_statement(rep):
                  "the 'normal' bit on 25% of the notes, sample / addition / custom set numbers on 20%; the same sample name up to 3 times at a time; sample names with non-ASCII "
                  "letters, blanks, U+3000 / U+00A0, ',' ':' '#' '//' quotes, 'A.WAV' next to 'a.wav' (35%), with ';' (6%); 1-2 event samples in the source chart (20%); the same "
                  "chart object as source and target (6%); row labels of hits / holds / samples of either chart reversed / offset / gappy / permuted (60%, each list 4/7); offset "
-                 "columns int64-typed (25%); a second call with the first result as source or as target of a further chart (20%); after every single-call case both inputs and "
+                 "columns int64-typed (25%); a second call with the first result as source or as target of a further chart (20%), or (20%) on the SAME two chart objects after 1-3 public edits of them "
+                 f"({', '.join(EDIT_KINDS)}), judged against the charts as they are then; columns up to 17 on half of the notes (15%); after every single-call case both inputs and "
                  "the result are edited in place to see that they share no data")
     rep.rule = "a case is one (source notes, target notes, event samples, row labels, typing, optional second call); non-trivial when some source time carries a sound and the target has a note at that time"
     st = Counter()
